@@ -1,7 +1,7 @@
 HOOK_COMMITS = []
 ENGINES = [
     {"name": "E1", "path": "mc/engine/core.py", "kind_free_text": "bounded exhaustive input enumeration of the real functions against set-of-bases / truth-table reference models, sharded over processes",
-     "serves_properties": ["C01", "C02", "C04", "C08"]},
+     "serves_properties": ["C01", "C02", "C03", "C04", "C08"]},
 ]
 NOT_APPLICABLE = {}
 CHECKS = {
@@ -29,4 +29,10 @@ CHECKS = {
                      "with what an independent recogniser of the documented grammar derives; every single-token corruption must be rejected or "
                      "parse to the recogniser's meaning; shipped rule files and regenerated texts included.",
                 note="Bounds: <=3 leaves, one corruption, <=2 layout deviations; reference recogniser mc/ref/grammar.py trusted; minscore inside cds() unjudged; one open finding (C02-F1)."),
+    "C03": dict(engine="E1", level="exploration", ref="DESIGN.md 5/C03",
+                technique="bounded exhaustive enumeration of gene layouts x hit tables x ruleset families through the real detection vs set-of-bases components/span/extension",
+                text="Every layout of <=3-4 genes at every position of a tiny line/ring (incl. origin-spanning genes), every hit table and five ruleset "
+                     "families (chain, condition menu, mixed cutoffs, SUPERIORS, EXTENDERS) run through the real detect_protoclusters_and_signatures; "
+                     "anchors, groups (graph components at distance < cutoff), core span, extent and superior removal are judged in set-of-bases terms.",
+                note="Small-scope (L in {13,16}, c in {2,3,5}, n in {0,1,4}); ring cores exact only below L/2; partial superior overlap not judged; extender admission modelled as closure at distance <= cutoff."),
 }
